@@ -627,27 +627,48 @@ def fd_check(tree, keys):
         dv = np.asarray(d._values_, dtype=float).reshape(tuple(shape) + tuple(r._numer_) + (nd,))
         dm = expanded(d._mask_, shape) | rm
         for j in range(nd):
-            f = {}
-            for h in (H, -H, H / 2, -H / 2):
-                q = O.ev(tree, keys, 'plain', (k, j, h))
-                f[h] = (np.broadcast_to(np.asarray(q._values_, dtype=float), tuple(shape) + tuple(r._numer_)), expanded(q._mask_, shape))
-            d1 = (f[H][0] - f[-H][0]) / (2 * H)
-            d2 = (f[H / 2][0] - f[-H / 2][0]) / H
-            rich = (4 * d2 - d1) / 3
-            err = np.abs(rich - d2)
-            bad_el = dm | f[H][1] | f[-H][1] | f[H / 2][1] | f[-H / 2][1]
+            def central(h):
+                vs, ms = [], []
+                for hh in (h, -h):
+                    q = O.ev(tree, keys, 'plain', (k, j, hh))
+                    vs.append(np.broadcast_to(np.asarray(q._values_, dtype=float), tuple(shape) + tuple(r._numer_)))
+                    ms.append(expanded(q._mask_, shape))
+                return (vs[0] - vs[1]) / (2 * h), ms[0] | ms[1], float(np.max(np.abs(vs[0]))) if vs[0].size else 1.0
             got = dv[..., j]
-            scale = max(1.0, float(np.max(np.abs(f[H][0]))) if f[H][0].size else 1.0, float(np.max(np.abs(got))) if got.size else 1.0)
-            tol = 30 * err + 1e-7 * scale
-            diff = np.abs(got - rich)
-            good = np.broadcast_to((~bad_el).reshape(tuple(shape) + (1,) * len(r._numer_)), diff.shape)
+            # stage 1: two step sizes; agreement within the (generous) tolerance passes
+            d0, m0, fmax = central(H)
+            d1, m1, _ = central(H / 2)
+            rich = (4 * d1 - d0) / 3
+            err = np.abs(rich - d1)
+            bad_el = dm | m0 | m1
+            scale = max(1.0, fmax, float(np.max(np.abs(got))) if got.size else 1.0)
+            good = np.broadcast_to((~bad_el).reshape(tuple(shape) + (1,) * len(r._numer_)), got.shape)
             if not np.all(np.isfinite(got[good])):
                 return ('nonfinite', 'derivative %s[%d] has a non-finite unmasked value' % (k, j))
-            wrong = (diff > tol) & good
+            suspect = (np.abs(got - rich) > 30 * err + 1e-7 * scale) & good
+            if not np.any(suspect):
+                continue
+            # stage 2: a disagreement is reported only if the finite differences demonstrably converge: five more
+            # halvings; the Richardson values must contract (each change at most half the previous one, or below
+            # the rounding floor) and the final change must be small against the disagreement; otherwise ABSTAIN.
+            ds, bad2 = [d0, d1], bad_el.copy()
+            for lev in range(2, 7):
+                dk, mk, _ = central(H / 2 ** lev)
+                ds.append(dk); bad2 = bad2 | mk
+            R = [(4 * ds[i + 1] - ds[i]) / 3 for i in range(len(ds) - 1)]
+            e = [np.abs(R[i + 1] - R[i]) for i in range(len(R) - 1)]
+            floor = 1e-9 * scale
+            conv = np.ones(got.shape, dtype=bool)
+            for i in range(1, len(e)):
+                conv &= (e[i] <= np.maximum(0.5 * e[i - 1], floor))
+            est, err2 = R[-1], e[-1] + floor
+            diff = np.abs(got - est)
+            good2 = np.broadcast_to((~bad2).reshape(tuple(shape) + (1,) * len(r._numer_)), got.shape)
+            wrong = suspect & good2 & conv & np.isfinite(est) & (diff > 100 * err2 + 1e-7 * scale)
             if np.any(wrong):
                 ix = tuple(int(i) for i in np.argwhere(wrong)[0])
                 return ('value', 'd/d%s[%d] at element %s: attached %.12g, finite differences %.12g (+- %.3g)'
-                        % (k, j, ix, got[ix], rich[ix], tol[ix]))
+                        % (k, j, ix, got[ix], est[ix], 100 * err2[ix] + 1e-7 * scale))
     return None
 
 
